@@ -142,6 +142,37 @@ func (e *Engine) modelCall(st *State, fn *ssa.Function, args []Val, site ssa.Ins
 		}
 		k(st, rs)
 		return true
+	case full == "sort.SliceStable" || full == "sort.Slice":
+		ci, ok := site.(ssa.CallInstruction)
+		if !ok {
+			return false
+		}
+		mi, ok := ci.Common().Args[0].(*ssa.MakeInterface)
+		if !ok {
+			return false
+		}
+		sl, ok := mi.X.Type().Underlying().(*types.Slice)
+		if !ok {
+			return false
+		}
+		e.noteAssumption(full + " only permutes the elements of its slice argument (the order it produces is not modelled)")
+		sv := e.reg(st, mi.X)
+		name, sort := e.arrMapName(sl.Elem())
+		h := e.heapGet(st, name, sort)
+		is := e.S.IntSort()
+		na := e.S.Fresh("sorted", fmt.Sprintf("(Array %s %s)", is, e.sortOf(sl.Elem())))
+		old := fmt.Sprintf("(select %s (sl_ref %s))", h, sv.T)
+		lo := fmt.Sprintf("(sl_off %s)", sv.T)
+		hi := e.arith("+", lo, fmt.Sprintf("(sl_len %s)", sv.T), tInt)
+		in := func(v string) string {
+			return fmt.Sprintf("(and %s %s)", e.compare("<=", lo, v, tInt), e.compare("<", v, hi, tInt))
+		}
+		st.assume(fmt.Sprintf("(forall ((i!p %s)) (! (=> (not %s) (= (select %s i!p) (select %s i!p))) :pattern ((select %s i!p))))", is, in("i!p"), na, old, na))
+		st.assume(fmt.Sprintf("(forall ((i!p %s)) (! (=> %s (exists ((j!p %s)) (and %s (= (select %s i!p) (select %s j!p))))) :pattern ((select %s i!p))))", is, in("i!p"), is, in("j!p"), na, old, na))
+		st.assume(fmt.Sprintf("(forall ((j!p %s)) (! (=> %s (exists ((i!p %s)) (and %s (= (select %s i!p) (select %s j!p))))) :pattern ((select %s j!p))))", is, in("j!p"), is, in("i!p"), na, old, old))
+		e.heapSet(st, name, sort, fmt.Sprintf("(store %s (sl_ref %s) %s)", h, sv.T, na))
+		k(st, nil)
+		return true
 	case full == "runtime.Gosched":
 		k(st, nil)
 		return true
